@@ -132,6 +132,37 @@ def run_case(case):
                         out["violations"].append({"kind": "materialization_of_locked_relation_added_node", "detail": f"{what}: materialized() call #{rep + 1} returned {short(cur)}"})
                         break
                     locked([x], cur, f"{what}.materialized() x{rep + 1}")
+        # ---- reapply() with an equal-but-distinct target: the same program built a second time
+        # from the same leaf specifications gives relations that compare equal to the first build
+        # but are different objects (own leaves, own materializations); re-applying a node of the
+        # first build to the twin's operand(s) has to produce a tree over the TWIN's locked nodes
+        try:
+            b2 = Builder(case["leaves"], engines, db)
+            b2.build(case["prog"])
+        except BuildFailure:
+            b2 = None
+        if b2 is not None and len(b2.nodes) == len(b.nodes):
+            for (sub, x), (_, t) in list(zip(b.nodes, b2.nodes))[-12:]:
+                what = model.show(sub) + " reapplied to its twin's operand"
+                try:
+                    if isinstance(x, R.UnaryOperationRelation) and isinstance(t, R.UnaryOperationRelation):
+                        inputs2, r = [t.target], x.reapply(t.target)
+                    elif isinstance(x, R.BinaryOperationRelation) and isinstance(t, R.BinaryOperationRelation):
+                        inputs2, r = [t.lhs, t.rhs], x.reapply(t.lhs, t.rhs)
+                    elif isinstance(x, R.MarkerRelation) and isinstance(t, R.MarkerRelation) and type(x) is type(t):
+                        inputs2, r = [t.target], x.reapply(t.target)
+                    else:
+                        continue
+                except R.RelationalAlgebraError:
+                    continue
+                except Exception as exc:  # noqa: BLE001
+                    out["violations"].append({"kind": "reapply_raised", "detail": f"{what}: {exc_str(exc)}"})
+                    continue
+                c["reapply_checked"] = c.get("reapply_checked", 0) + 1
+                locked(inputs2, r, what)
+                if r != t and not isinstance(x, R.MarkerRelation):
+                    # same operation on an equal operand: an equal relation
+                    out["violations"].append({"kind": "reapply_result_not_equal_to_twin", "detail": f"{what}: {short(r, 200)} vs {short(t, 200)}"})
         # ---- content of root round trips
         m = model.Model(case["leaves"], sql_slices=True, key_dedup=True, strict_fragile=True, ordered_engines=("it", "it2"))
         try:
